@@ -82,7 +82,8 @@ structure SigFacts where
   deriving Repr, DecidableEq, Inhabited
 
 def mediaType : Bytes := "application/vnd.sylabs.sif-metadata+json".toUTF8.toList
-def legacyPrefix : Bytes := "SIFHASH:\n".toUTF8.toList
+/-- "SIFHASH:\n" -/
+def legacyPrefix : Bytes := [83, 73, 70, 72, 65, 83, 72, 58, 10]
 
 /-! ## errors of pkg/integrity (classes compared: the exported ones) -/
 inductive IErr
@@ -311,13 +312,16 @@ def bytesLt : Bytes → Bytes → Bool
 def insertSortedBytes (l : List Bytes) (v : Bytes) : List Bytes :=
   if l.contains v then l else (l.filter (fun x => bytesLt x v)) ++ [v] ++ (l.filter (fun x => bytesLt v x))
 
-/-- `getFingerprints` -/
-def getFingerprints (sigs : List RawDesc) : Except IErr (List Bytes) :=
-  sigs.foldlM (fun acc d =>
+/-- `getFingerprints`: the sorted, duplicate-free fingerprints recorded on `sigs` -/
+def getFingerprintsAcc : List RawDesc → List Bytes → Except IErr (List Bytes)
+  | [], acc => .ok acc
+  | d :: ds, acc =>
     match sigMetadata d with
     | .error e => .error e
-    | .ok (_, none) => .ok acc
-    | .ok (_, some fp) => .ok (insertSortedBytes acc fp)) []
+    | .ok (_, none) => getFingerprintsAcc ds acc
+    | .ok (_, some fp) => getFingerprintsAcc ds (insertSortedBytes acc fp)
+
+def getFingerprints (sigs : List RawDesc) : Except IErr (List Bytes) := getFingerprintsAcc sigs []
 
 /-! ## verify.go -/
 
@@ -349,32 +353,59 @@ structure SigResult where
   entity : Option Nat             -- validating PGP entity
   deriving Repr, DecidableEq, Inhabited
 
+/-- the group tasks of `getTasks` / `getLegacyTasks`, in order -/
+def groupTasks (s : Img) (legacy : Bool) : List Nat → Except IErr (List Task)
+  | [] => .ok []
+  | g :: gs =>
+    match getGroupObjects ph s g with
+    | .error e => .error e
+    | .ok ods =>
+      match groupTasks s legacy gs with
+      | .error e => .error e
+      | .ok ts => .ok ((if legacy then Task.legacyGroup g ods else Task.group g ods false) :: ts)
+
+/-- the object tasks: `newGroupVerifier(f, od.GroupID(), od)` (explicit descriptor ⇒ subsetOK, no
+    group lookup) or `newLegacyObjectVerifier` -/
+def objectTasks (s : Img) (legacy : Bool) : List Nat → Except IErr (List Task)
+  | [] => .ok []
+  | id :: ids =>
+    match getDescriptor ph s [.id id] with
+    | .error e => .error (.sif e)
+    | .ok od =>
+      match objectTasks s legacy ids with
+      | .error e => .error e
+      | .ok ts => .ok ((if legacy then Task.legacyObject od else Task.group od.group [od] true) :: ts)
+
 /-- `getTasks` / `getLegacyTasks` -/
-def getTasks (s : Img) (legacy : Bool) (groups objects : List Nat) : Except IErr (List Task) := do
-  let gt ← groups.mapM (fun g => do
-    let ods ← getGroupObjects ph s g
-    pure (if legacy then Task.legacyGroup g ods else Task.group g ods false))
-  let ot ← objects.mapM (fun id => do
-    let od ← liftSif (getDescriptor ph s [.id id])
-    if legacy then pure (Task.legacyObject od)
-    else
-      -- newGroupVerifier(f, od.GroupID(), od): explicit descriptor ⇒ subsetOK, no group lookup
-      pure (Task.group od.group [od] true))
-  pure (gt ++ ot)
+def getTasks (s : Img) (legacy : Bool) (groups objects : List Nat) : Except IErr (List Task) :=
+  match groupTasks ph s legacy groups with
+  | .error e => .error e
+  | .ok gt =>
+    match objectTasks ph s legacy objects with
+    | .error e => .error e
+    | .ok ot => .ok (gt ++ ot)
+
+/-- the object IDs `NewVerifier` ends up with (`OptVerifyObject`s, plus every grouped
+    non-signature object in legacy-all mode), sorted and duplicate-free -/
+def verifierObjects (s : Img) (o : VerifyOpts) : List Nat :=
+  let objects0 := o.objects.foldl insertSorted []
+  if o.legacyAll then
+    (live s.rds).foldl (fun acc d =>
+      if d.dtype != dtSignature && d.group != 0 then insertSorted acc d.id else acc) objects0
+  else objects0
 
 /-- `NewVerifier`: option processing and task construction -/
-def newVerifier (s : Img) (o : VerifyOpts) : Except IErr (List Task) := do
-  if o.groups.contains 0 then throw (.sif .invalidGroupID)
-  if o.objects.contains 0 then throw (.sif .invalidObjectID)
-  let groups := o.groups.foldl insertSorted []
-  let objects0 := o.objects.foldl insertSorted []
-  let objects :=
-    if o.legacyAll then
-      (live s.rds).foldl (fun acc d =>
-        if d.dtype != dtSignature && d.group != 0 then insertSorted acc d.id else acc) objects0
-    else objects0
-  let groups ← if groups.isEmpty && objects.isEmpty then getGroupIDs s else pure groups
-  getTasks ph s (o.legacy || o.legacyAll) groups objects
+def newVerifier (s : Img) (o : VerifyOpts) : Except IErr (List Task) :=
+  if o.groups.contains 0 then .error (.sif .invalidGroupID)
+  else if o.objects.contains 0 then .error (.sif .invalidObjectID)
+  else
+    let groups := o.groups.foldl insertSorted []
+    let objects := verifierObjects s o
+    if groups.isEmpty && objects.isEmpty then
+      match getGroupIDs s with
+      | .error e => .error e
+      | .ok gids => getTasks ph s (o.legacy || o.legacyAll) gids objects
+    else getTasks ph s (o.legacy || o.legacyAll) groups objects
 
 /-- `t.signatures()` -/
 def Task.signatures (facts : Bytes → SigFacts) (s : Img) : Task → Except IErr (List RawDesc)
@@ -414,6 +445,12 @@ def verifyMessage (f : SigFacts) (km : KeyMaterial) : Decoder → Option (Bytes 
       | some k => if (km.kr.getD []).contains k then some (c.plaintext, [], some k) else none
       | none => none
 
+/-- `if e := vr.e; e != nil && !bytes.Equal(e.PrimaryKey.Fingerprint, fp)` -/
+def fpMismatch (fpOf : Nat → Bytes) (ent : Option Nat) (fp : Option Bytes) : Bool :=
+  match ent with
+  | some k => some (fpOf k) != fp
+  | none => false
+
 /-- `groupVerifier.verifySignature` -/
 def verifyGroupSig (fpOf : Nat → Bytes) (facts : Bytes → SigFacts) (s : Img) (km : KeyMaterial)
     (g : Nat) (ods : List RawDesc) (subsetOK : Bool) (sig : RawDesc) (de : Decoder) :
@@ -433,7 +470,7 @@ def verifyGroupSig (fpOf : Nat → Bytes) (facts : Bytes → SigFacts) (s : Img)
           match getGroupMinObjectID s g with
           | .error e => .error e
           | .ok minID =>
-            if (match ent with | some k => some (fpOf k) != fp | none => false) then
+            if fpMismatch fpOf ent fp then
               .error .fingerprintMismatch
             else
               match (if subsetOK then .ok () else objectIDsMatch im minID ods) with
@@ -472,7 +509,7 @@ def verifyLegacySig (fpOf : Nat → Bytes) (facts : Bytes → SigFacts) (s : Img
     match sigMetadata sig with
     | .error e => .error e
     | .ok (ht, fp) =>
-      if (match ent with | some k => some (fpOf k) != fp | none => false) then
+      if fpMismatch fpOf ent fp then
         .error .fingerprintMismatch
       else
         match newLegacyDigest ht b with
@@ -528,16 +565,34 @@ def verify (fpOf : Nat → Bytes) (facts : Bytes → SigFacts) (s : Img) (km : K
     if ods.any (fun d => d.dtype != dtSignature) then .error .nonGroupedObject
     else verifyTasks H ph fpOf facts s km tasks
 
+/-- the fingerprints recorded on the signatures attached to one task ("not found" = none) -/
+def taskFingerprints (facts : Bytes → SigFacts) (s : Img) (t : Task) : Except IErr (List Bytes) :=
+  match t.signatures ph facts s with
+  | .error (.signatureNotFound _ _) => getFingerprints []
+  | .error e => .error e
+  | .ok sigs => getFingerprints sigs
+
+def allTaskFingerprints (facts : Bytes → SigFacts) (s : Img) : List Task → Except IErr (List (List Bytes))
+  | [] => .ok []
+  | t :: ts =>
+    match taskFingerprints ph facts s t with
+    | .error e => .error e
+    | .ok fps =>
+      match allTaskFingerprints facts s ts with
+      | .error e => .error e
+      | .ok r => .ok (fps :: r)
+
+/-- union (any) or intersection (all) over the tasks, sorted and duplicate-free -/
+def combineFingerprints (per : List (List Bytes)) (anyTask : Bool) : List Bytes :=
+  let all := per.foldl (fun acc fps => fps.foldl insertSortedBytes acc) []
+  if anyTask then all else all.filter (fun fp => per.all (fun fps => fps.contains fp))
+
 /-- `Verifier.fingerprints(anyTask)` -/
 def fingerprints (facts : Bytes → SigFacts) (s : Img) (tasks : List Task) (anyTask : Bool) :
-    Except IErr (List Bytes) := do
-  let per ← tasks.mapM (fun t =>
-    match t.signatures ph facts s with
-    | .error (.signatureNotFound _ _) => getFingerprints []
-    | .error e => .error e
-    | .ok sigs => getFingerprints sigs)
-  let all := per.foldl (fun acc fps => fps.foldl insertSortedBytes acc) []
-  pure (if anyTask then all else all.filter (fun fp => per.all (fun fps => fps.contains fp)))
+    Except IErr (List Bytes) :=
+  match allTaskFingerprints ph facts s tasks with
+  | .error e => .error e
+  | .ok per => .ok (combineFingerprints per anyTask)
 
 /-! ## sign.go -/
 
